@@ -90,7 +90,6 @@ func c19Large() state.ClusterState {
 	return st
 }
 
-
 // c19Mid is between the two: one assigned slot with a pending bootstrap task, MCP disabled.
 func c19Mid() state.ClusterState {
 	st := c19Small()
@@ -101,7 +100,7 @@ func c19Mid() state.ClusterState {
 	st.Tasks = []state.ReconcileTask{{TaskID: "slot-2-bootstrap-1", SlotID: 2, Kind: state.TaskKindBootstrap, Step: state.TaskStepCreateSlot, TargetNode: 3,
 		TargetPeers: []uint64{2, 3}, CompletionPolicy: state.TaskCompletionPolicyAllTargetPeers,
 		ParticipantProgress: []state.TaskParticipantProgress{{NodeID: 2, Status: state.TaskParticipantStatusPending}, {NodeID: 3, Status: state.TaskParticipantStatusPending}},
-		ConfigEpoch: 1, Status: state.TaskStatusPending}}
+		ConfigEpoch:         1, Status: state.TaskStatusPending}}
 	st.OpsMCP = &state.OpsMCPState{Enabled: false, Credentials: []state.OpsMCPCredential{}}
 	return st
 }
